@@ -10,7 +10,7 @@ import (
 func init() {
 	register(PropInfo{
 		ID: "C05",
-		Explanation: "All-paths decision of the structural clauses of C05 in internal/execute/sm/actions (DESIGN.md section 4, C05): (R1) the guard `len(Attempts) > Retries ⇒ ErrPermanent` is the only comparison of those operands and precedes the plugin call on every path (with an uncapped Retry loop it is the only bound); (R2) exactly one attempt is appended per invocation, after the plugin returned, and written (fatal on error) before exec returns; Start/End are stamped around the call; (R3) outcome mapping: timeout ⇒ retryable error returned; a non-nil response is type-checked on every path and a mismatch becomes a permanent error with the response dropped; nil error ⇒ nil, permanent ⇒ wraps ErrPermanent with %w, otherwise the error itself; (R4) the plugin runs under a context derived from WithTimeout(action.Timeout) that is cancelled after the call, and run() races the plugin against that context; (R5) the action machine is Start→GetPlugin→Execute→End with exec called once per Retry iteration; (R6) both vaults decode every stored attempt into a value of its own (no memory shared between the attempts of an action). Decides these necessary conditions, not invocation counts as numbers.",
+		Explanation: "All-paths decision of the structural clauses of C05 in internal/execute/sm/actions (DESIGN.md section 4, C05): (R1) the guard `len(Attempts) > Retries ⇒ ErrPermanent` is the only comparison of those operands and precedes the plugin call on every path (with an uncapped Retry loop it is the only bound); (R2) exactly one attempt is appended per invocation, after the plugin returned, and written (fatal on error) before exec returns; Start/End are stamped around the call; (R3) outcome mapping: timeout ⇒ retryable error returned; a non-nil response is type-checked on every path and a mismatch becomes a permanent error with the response dropped; nil error ⇒ nil, permanent ⇒ wraps ErrPermanent with %w, otherwise the error itself; (R4) the plugin runs under a context derived from WithTimeout(action.Timeout) that is cancelled after the call, and run() races the plugin against that context; (R5) the action machine is Start→GetPlugin→Execute→End with exec called once per Retry iteration; (R6) both vaults decode every stored attempt into a value of its own (no memory shared between the attempts of an action); (R7) after a crash fixAction gives an action whose last recorded attempt finished the verdict of that attempt (it is never resumed for further attempts), resets only actions without attempts and drops an unfinished attempt; R4 also requires the channel the plugin's result arrives on to be made by run() for that invocation. Decides these necessary conditions, not invocation counts as numbers.",
 		NotDecided:  []string{"the number of invocations as a runtime count", "attempt ordering as data (append order is R2)", "start<=end as wall-clock values"},
 		Assumptions: []string{"exponential.Backoff.Retry calls op until it returns nil or an error wrapping ErrPermanent; no attempt cap (read in Azure/retry)"},
 		Rules:       rulesC05,
@@ -239,7 +239,7 @@ func rulesC05(r *Run) {
 	r.Kind("R4", "K11")
 	ruleExecContext(r, "R4", fn, fl, paths)
 	ruleRunRace(r, "R4")
-	r.Expect("R4", 3)
+	r.Expect("R4", 4)
 
 	// ---- R5
 	r.Kind("R5", "K1")
@@ -251,6 +251,12 @@ func rulesC05(r *Run) {
 	ruleDecodeAttempts(r, "R6", sqlKey("decodeAttempts"))
 	ruleDecodeAttempts(r, "R6", cosKey("decodeAttempts"))
 	r.Expect("R6", 2)
+
+	// ---- R7: the bound survives a crash (round-3 seed C05-6): recovery never leaves an action whose last
+	// recorded attempt is finished in a state from which the plugin is invoked again
+	r.Kind("R7", "K2")
+	ruleFixAction(r, "R7")
+	r.Expect("R7", 3)
 }
 
 func compositeOf(e ast.Expr) *ast.CompositeLit {
@@ -762,6 +768,102 @@ func ruleRunRace(r *Run, rule string) {
 		}
 	}
 	r.Check(rule, "run:races-plugin-against-timeout", fn.Decl.Pos(), bad == "" && sawDone && sawRes, "%s", orOK(bad, "select{ctx.Done ⇒ timeout; result channel ⇒ plugin result}"))
+
+	// the channel the result arrives on belongs to this invocation alone (round-3 seed C05-5: a pooled channel
+	// let the late answer of an overrun invocation be taken for the answer of the next attempt): every
+	// channel run() receives a plugin result from is a local of run() whose only definitions are make(chan …)
+	var chObjs []types.Object
+	var chPos token.Pos = fn.Decl.Pos()
+	ast.Inspect(fn.Decl.Body, func(n ast.Node) bool {
+		var x ast.Expr
+		switch v := n.(type) {
+		case *ast.UnaryExpr:
+			if v.Op == token.ARROW {
+				x = v.X
+			}
+		case *ast.RangeStmt:
+			if tv, ok := info.Types[v.X]; ok {
+				if _, isCh := tv.Type.Underlying().(*types.Chan); isCh {
+					x = v.X
+				}
+			}
+		}
+		if x == nil || strings.HasSuffix(ExprStr(x), ".Done()") {
+			return true
+		}
+		if tv, ok := info.Types[x]; ok {
+			if ch, isCh := tv.Type.Underlying().(*types.Chan); isCh && strings.HasSuffix(ShortType(ch.Elem()), "plugResp") {
+				if o := ObjOf(info, x); o != nil {
+					chObjs = append(chObjs, o)
+				} else {
+					chObjs = append(chObjs, nil)
+				}
+				chPos = x.Pos()
+			}
+		}
+		return true
+	})
+	if len(chObjs) == 0 {
+		r.Unresolved(rule, "run() receives the plugin result from a channel")
+		return
+	}
+	badCh := ""
+	for _, o := range chObjs {
+		v, isVar := o.(*types.Var)
+		if o == nil || !isVar || v.IsField() || v.Parent() == nil || v.Pkg() == nil || v.Parent() == v.Pkg().Scope() || !(fn.Decl.Body.Pos() <= o.Pos() && o.Pos() <= fn.Decl.Body.End()) {
+			badCh = "run() receives the plugin's result from a channel that is not a local of this invocation"
+			break
+		}
+		nDef := 0
+		ast.Inspect(fn.Decl.Body, func(n ast.Node) bool {
+			check := func(l ast.Expr, rhs ast.Expr) {
+				if ObjOf(info, l) != o {
+					return
+				}
+				nDef++
+				c, isCall := ast.Unparen(rhs).(*ast.CallExpr)
+				isMake := false
+				if isCall {
+					if id, ok := ast.Unparen(c.Fun).(*ast.Ident); ok {
+						if b, ok := info.ObjectOf(id).(*types.Builtin); ok && b.Name() == "make" {
+							isMake = true
+						}
+					}
+				}
+				if !isMake && badCh == "" {
+					badCh = "the channel run() receives the plugin's result from is defined as " + ExprStr(rhs) + ", not made for this invocation: the late answer of an invocation that overran its timeout can be received as the result of a later attempt (or of another action)"
+				}
+			}
+			switch v := n.(type) {
+			case *ast.AssignStmt:
+				if len(v.Lhs) == len(v.Rhs) {
+					for k := range v.Lhs {
+						check(v.Lhs[k], v.Rhs[k])
+					}
+				} else {
+					for k := range v.Lhs {
+						if ObjOf(info, v.Lhs[k]) == o && badCh == "" {
+							nDef++
+							badCh = "the result channel of run() is defined by a multi-value assignment, not made for this invocation"
+						}
+					}
+				}
+			case *ast.ValueSpec:
+				for k, nm := range v.Names {
+					if info.ObjectOf(nm) == o {
+						if k < len(v.Values) {
+							check(nm, v.Values[k])
+						}
+					}
+				}
+			}
+			return true
+		})
+		if nDef == 0 && badCh == "" {
+			badCh = "the result channel of run() is never made in run()"
+		}
+	}
+	r.Check(rule, "run:result-channel-fresh-per-invocation", chPos, badCh == "", "%s", orOK(badCh, "the result channel is made by run() for this invocation"))
 }
 
 func commRecv(s ast.Stmt) ast.Expr {
